@@ -5,6 +5,8 @@ import CookModel.Lemmas.BuilderDeclared
 import CookModel.Lemmas.BuilderOrderFull
 import CookModel.Lemmas.BuilderAudit
 import CookModel.Lemmas.BuilderBridge
+import CookModel.Lemmas.BuilderFracLookup
+import CookModel.Lemmas.BuilderKeys
 /-
   C16  Converters built from configuration layers are consistent or rejected.
 
@@ -720,6 +722,258 @@ example :
       match (convOfBuilt conv).findUnit ['g'], (convOfBuilt conv).findUnit ['z'] with
       | some g, some z => (convertF64 (5 : Rat) g z).bind (fun w => convertF64 w z g)
       | _, _ => none) = some (some 0) := by decide +kernel
+
+end C16Examples
+
+/-! ### Added by wave 4: what notes/audit-C16.md listed under "Left open"
+
+  (1) the VALUE of a per-unit fractions entry and the lookup order of `Converter::fractions_config`, composed;
+  (2) the quantity index; (3) the keys of the FINAL converter (after SI expansion and extend blocks). -/
+
+/-- **The value of the per-unit fraction table** (`C16_fractions` gave its domain).  Let `layers` be the fraction layers
+    of the files, in layer order, and read their `unit` tables one after the other, each in the iteration order of its
+    hash map (`layers.flatMap (·.unit)`).  For unit `id` of the built converter, the table has an entry iff some entry's
+    key is one of the unit's FINAL names, symbols or aliases, and its value is decided by the LAST such entry `kw`
+    (last layer; within a layer the last in iteration order — within one layer two keys of the same unit can name it
+    twice): the entry's own settings (`kw.2.get`), completed field by field with what the unit inherits
+    (`inheritedH`: the quantity table's entry for the unit's quantity, then the table of the unit's system, then `all`,
+    each the last-layer-wins value BEFORE defaults are filled in; `C16_fraction_entry_fields`), then with the defaults
+    and clamps of `FractionsConfigHelper::define`.  Ids that are no unit have no entry. -/
+theorem C16_fraction_unit_value {α : Type} [Arith α] (files : List (UnitsFile α)) (conv : Bld.Converter α) (h : build files = .ok conv) :
+    ∃ layers, layers = files.filterMap (·.fractions) ∧
+      (∀ (id : Nat) (u : Bld.Unit α), conv.units[id]? = some u →
+        Bld.mapGet conv.fractions.unit id =
+          ((layers.flatMap (·.unit)).reverse.find? (fun kw => decide (kw.1 ∈ u.keys))).map (fun kw =>
+            (kw.2.get.merge (inheritedH (quantityLayers layers (fun _ => none)) (lastLayer (·.metric) layers none)
+              (lastLayer (·.imperial) layers none) (lastLayer (·.all) layers none) u)).define)) ∧
+      (∀ id, conv.units[id]? = none → Bld.mapGet conv.fractions.unit id = none) := by
+  obtain ⟨b, c, hbc, hready, hp⟩ := (build_good files).of_ok h
+  obtain ⟨b', c', hbc', hfr⟩ := audit_build_fractions files conv h
+  rw [hbc] at hbc'; cases hbc'
+  obtain ⟨hadd, _, _, _⟩ := audit_buildCore_parts files b c hbc
+  obtain ⟨_, a2, _⟩ := addFiles_settings hadd
+  have hl : b.fractions = files.filterMap (·.fractions) := by rw [a2]; simp [Builder.empty]
+  refine ⟨b.fractions, hl, ?_, ?_⟩
+  · intro id u hu
+    rw [hp.units, List.getElem?_map] at hu
+    obtain ⟨ub, hub, rfl⟩ := Option.map_eq_some_iff.mp hu
+    rw [bfv_buildFractions_unit c b.fractions conv.fractions hfr id, hub, Option.bind_some,
+      bfv_lastEntryFor_keys hready.1 _ id ub hub]
+  · intro id hu
+    rw [hp.units, List.getElem?_map] at hu
+    rw [bfv_buildFractions_unit c b.fractions conv.fractions hfr id]
+    cases hc : c.units[id]? with
+    | none => rfl
+    | some x => rw [hc] at hu; cases hu
+
+/-- The merge of `C16_fraction_unit_value`, field by field: a setting of the entry itself wins; a setting it leaves open
+    is taken from the quantity's table, else from the table of the unit's system (`sysSel`: none for a unit without
+    system), else from `all`; what is still open gets the default (`FracH.define`: enabled `false`, accuracy clamped
+    to `[0, 1]`, denominator clamped, as the generated constants say). -/
+theorem C16_fraction_entry_fields {α : Type} (w : FracH α) (quantity : PQ → Option (FracH α)) (metric imperial all : Option (FracH α))
+    (u : Bld.Unit α) :
+    let r := w.merge (inheritedH quantity metric imperial all u)
+    r.enabled = w.enabled.or (((quantity u.quantity).bind (·.enabled)).or
+      (((sysSel metric imperial u.system).bind (·.enabled)).or (all.bind (·.enabled)))) ∧
+    r.accuracy = w.accuracy.or (((quantity u.quantity).bind (·.accuracy)).or
+      (((sysSel metric imperial u.system).bind (·.accuracy)).or (all.bind (·.accuracy)))) ∧
+    r.maxDen = w.maxDen.or (((quantity u.quantity).bind (·.maxDen)).or
+      (((sysSel metric imperial u.system).bind (·.maxDen)).or (all.bind (·.maxDen)))) ∧
+    r.maxWhole = w.maxWhole.or (((quantity u.quantity).bind (·.maxWhole)).or
+      (((sysSel metric imperial u.system).bind (·.maxWhole)).or (all.bind (·.maxWhole)))) := by
+  unfold inheritedH
+  cases quantity u.quantity <;> cases sysSel metric imperial u.system <;> cases all <;>
+    simp [FracH.merge, FracH.empty]
+
+/-- **Lookup order of `Converter::fractions_config`** (`Fractions::config`, src/convert/mod.rs) on a built converter, read
+    as the conversion model's converter (`convOfBuilt`): unit `id` is `unitOfBuilt id u` there, and the configuration used
+    for it is the first that exists of: the unit's own entry, the entry of its physical quantity, the entry of its
+    system, `all`; the default configuration when none exists.  (No merging at this stage: the first table that has
+    an entry decides ALL four fields.) -/
+theorem C16_fraction_config_order {α : Type} [Arith α] (conv : Bld.Converter α) (id : Nat) (u : Bld.Unit α)
+    (hu : conv.units[id]? = some u) :
+    (convOfBuilt conv).allUnits[id]? = some (unitOfBuilt id u) ∧
+    (convOfBuilt conv).fractionsConfig (unitOfBuilt id u) =
+      (((((Bld.mapGet conv.fractions.unit id).or (conv.fractions.quantity u.quantity)).or
+          (sysSel conv.fractions.metric conv.fractions.imperial u.system)).or conv.fractions.all).map cfgOfBuilt).getD
+        defaultCfg :=
+  ⟨by rw [allUnits_getElem?, hu]; rfl, bfl_fractionsConfig conv id u⟩
+
+/-- The id `Converter::fractions_config` looks up: the code resolves `unit.symbol()` (first symbol, else first name, else
+    first alias) in the unit index and `expect`s it to be there.  For every unit of a built converter the symbol exists
+    and resolves to the unit's OWN id, so the `expect` cannot fail and the unit id of `C16_fraction_config_order` (the
+    model passes `u.id`) is the one the code finds. -/
+theorem C16_fraction_config_symbol {α : Type} [Arith α] (files : List (UnitsFile α)) (conv : Bld.Converter α) (h : build files = .ok conv)
+    (id : Nat) (u : Bld.Unit α) (hu : conv.units[id]? = some u) :
+    ∃ s, (unitOfBuilt id u).symbol? = some s ∧ idxGet conv.index s = some id := by
+  have hne := ((bk_build files conv h).2 u (List.mem_of_getElem? hu)).1
+  obtain ⟨s, hs⟩ := Option.isSome_iff_exists.mp (unitOfBuilt_symbol id u hne)
+  refine ⟨s, hs, (C16_builder_inv files conv h).1 id u s hu ?_⟩
+  unfold Cook.Unit.symbol? at hs
+  unfold Bld.Unit.keys
+  simp only [unitOfBuilt] at hs
+  split at hs
+  · rename_i x hx
+    cases hs
+    exact List.mem_append_left _ (List.mem_append_right _ (List.mem_of_mem_head? hx))
+  · split at hs
+    · rename_i x hx
+      cases hs
+      exact List.mem_append_left _ (List.mem_append_left _ (List.mem_of_mem_head? hx))
+    · exact List.mem_append_right _ (List.mem_of_mem_head? hs)
+
+/-- **The fraction settings used for a quantity in unit `u`**, composed from the two theorems above, as a closed form over
+    the layers.  If some layer's `unit` table names the unit (by any of its final keys), the settings are those of the
+    LAST layer entry that does — merged field by field with the inherited tables and completed with the defaults.
+    Otherwise they are the (last-layer-wins) settings of the unit's quantity, else of its system, else `all`, each
+    completed with the defaults only (NOT merged with the tables further down the chain); else the default
+    configuration. -/
+theorem C16_fraction_settings_used {α : Type} [Arith α] (files : List (UnitsFile α)) (conv : Bld.Converter α) (h : build files = .ok conv) :
+    ∃ layers, layers = files.filterMap (·.fractions) ∧
+      ∀ (id : Nat) (u : Bld.Unit α), conv.units[id]? = some u →
+        (convOfBuilt conv).fractionsConfig (unitOfBuilt id u) =
+          match (layers.flatMap (·.unit)).reverse.find? (fun kw => decide (kw.1 ∈ u.keys)) with
+          | some kw =>
+            cfgOfBuilt (kw.2.get.merge (inheritedH (quantityLayers layers (fun _ => none)) (lastLayer (·.metric) layers none)
+              (lastLayer (·.imperial) layers none) (lastLayer (·.all) layers none) u)).define
+          | none =>
+            ((((quantityLayers layers (fun _ => none) u.quantity).or
+                (sysSel (lastLayer (·.metric) layers none) (lastLayer (·.imperial) layers none) u.system)).or
+                (lastLayer (·.all) layers none)).map (fun x => cfgOfBuilt x.define)).getD defaultCfg := by
+  obtain ⟨layers, hl, hval, _⟩ := C16_fraction_unit_value files conv h
+  obtain ⟨layers', hl', f1, f2, f3, f4, _⟩ := C16_fractions files conv h
+  rw [← hl] at hl'; subst hl'
+  refine ⟨layers', hl, ?_⟩
+  intro id u hu
+  rw [bfl_fractionsConfig, hval id u hu, f1, f2, f3, f4]
+  cases (layers'.flatMap (·.unit)).reverse.find? (fun kw => decide (kw.1 ∈ u.keys)) with
+  | some kw => rfl
+  | none =>
+    have hs : ∀ (a b : Option (FracH α)) (s : Option Sys),
+        sysSel (a.map FracH.define) (b.map FracH.define) s = (sysSel a b s).map FracH.define := by
+      intro a b s
+      cases s with
+      | none => rfl
+      | some s => cases s <;> rfl
+    rw [hs]
+    cases quantityLayers layers' (fun _ => none) u.quantity <;>
+      cases sysSel (lastLayer (·.metric) layers' none) (lastLayer (·.imperial) layers' none) u.system <;>
+      cases lastLayer (·.all) layers' none <;> rfl
+
+/-- **The quantity index** (`quantity_index`, what `best_units`' fallback iterates): for a successful build it lists, for
+    every physical quantity, exactly the ids of the units of that quantity — declared, SI-expanded, whatever extend
+    blocks did to them — each once, in increasing id order (the order of `all_units`). -/
+theorem C16_quantity_index {α : Type} [Arith α] (files : List (UnitsFile α)) (conv : Bld.Converter α) (h : build files = .ok conv) :
+    ∀ q, (∀ id, id ∈ conv.quantityIndex q ↔ ∃ u, conv.units[id]? = some u ∧ u.quantity = q) ∧
+      (conv.quantityIndex q).Pairwise (· < ·) ∧ (conv.quantityIndex q).Nodup := by
+  obtain ⟨b, c, _, _, hp⟩ := (build_good files).of_ok h
+  intro q
+  obtain ⟨h1, h2⟩ := bk_quantityIds c.units q
+  rw [hp.qidx]
+  refine ⟨?_, h2, h2.imp (fun hlt => Nat.ne_of_lt hlt)⟩
+  intro id
+  rw [h1 id, hp.units, List.getElem?_map]
+  constructor
+  · rintro ⟨ub, hub, hq⟩
+    exact ⟨ub.unit, by rw [hub]; rfl, hq⟩
+  · rintro ⟨u, hu, hq⟩
+    obtain ⟨ub, hub, rfl⟩ := Option.map_eq_some_iff.mp hu
+    exact ⟨ub, hub, hq⟩
+
+/-- **The keys of the FINAL converter** (`C16_declared_keys_wellformed` spoke about the declared units only).  For every
+    successful build, also after SI expansion (generated `prefix ++ name`) and after extend blocks renamed units and
+    re-generated their expansions:
+    every unit has at least one key, none of its keys is blank (empty or white space only) and none occurs twice among
+    its names, symbols and aliases; listed unit by unit, ALL keys of ALL units are pairwise different (global uniqueness:
+    every key belongs to exactly one unit, at exactly one place); the index (a hash map, modelled by an association list)
+    holds every key once, holds exactly the keys of the units, and maps each to the unit that has it. -/
+theorem C16_final_keys {α : Type} [Arith α] (files : List (UnitsFile α)) (conv : Bld.Converter α) (h : build files = .ok conv) :
+    (∀ u, u ∈ conv.units → u.keys ≠ [] ∧ (∀ k, k ∈ u.keys → isBlankKey k = false) ∧ u.keys.Nodup) ∧
+    (conv.units.flatMap (·.keys)).Nodup ∧
+    (conv.index.map (·.1)).Nodup ∧ (conv.index.map (·.1)).Perm (conv.units.flatMap (·.keys)) ∧
+    (∀ e, e ∈ conv.index → isBlankKey e.1 = false ∧ ∃ u, conv.units[e.2]? = some u ∧ e.1 ∈ u.keys) := by
+  obtain ⟨hn, hk⟩ := bk_build files conv h
+  obtain ⟨hall, hperm⟩ := bk_build_allKeys files conv h
+  refine ⟨hk, hall, hn, hperm, ?_⟩
+  intro e he
+  obtain ⟨u, hu, hku⟩ := (C16_builder_inv files conv h).2.1 e.1 e.2 (bk_idxGet_of_mem hn he)
+  exact ⟨(hk u (List.mem_of_getElem? hu)).2.1 e.1 hku, u, hu, hku⟩
+
+/-- Instance for the shipped units file: the generated `Converter.bundled` (the converter all C09/C03 runs compare with
+    `Converter::bundled()`) has globally unique, non-blank keys — every key of every unit occurs once in the list of all
+    keys — and the unit index of the converter built from the shipped file holds exactly these keys, each once.
+    Derived from `C16_final_keys` (a fact about EVERY built converter) through `C16_built_bundled_is_generated`, not by
+    evaluating the key table. -/
+theorem C16_bundled_keys_unique :
+    ((Cook.Converter.bundled Rat).allUnits.flatMap (·.allKeys)).Nodup ∧
+    (∀ u, u ∈ (Cook.Converter.bundled Rat).allUnits → u.allKeys ≠ [] ∧ ∀ k, k ∈ u.allKeys → isBlankKey k = false) ∧
+    ∃ conv : Bld.Converter Rat, bundled = .ok conv ∧ (conv.index.map (·.1)).Nodup ∧
+      (conv.index.map (·.1)).Perm ((Cook.Converter.bundled Rat).allUnits.flatMap (·.allKeys)) := by
+  obtain ⟨conv, hb, hsame⟩ := C16_built_bundled_is_generated
+  obtain ⟨hk, hall, hn, hperm, _⟩ := C16_final_keys [Gen.shippedFile] conv hb
+  have hmap : (convOfBuilt conv).allUnits.map (·.allKeys) = conv.units.map (·.keys) := by
+    apply List.ext_getElem?
+    intro i
+    rw [List.getElem?_map, allUnits_getElem?, List.getElem?_map]
+    cases conv.units[i]? <;> rfl
+  have hflat : (Cook.Converter.bundled Rat).allUnits.flatMap (·.allKeys) = conv.units.flatMap (·.keys) := by
+    rw [← hsame.1, List.flatMap_def, hmap, ← List.flatMap_def]
+  rw [hflat]
+  refine ⟨hall, ?_, conv, hb, hn, hperm⟩
+  intro x hx
+  rw [← hsame.1] at hx
+  obtain ⟨i, u, hu, rfl⟩ := (mem_allUnits conv x).mp hx
+  obtain ⟨h1, h2, _⟩ := hk u (List.mem_of_getElem? hu)
+  exact ⟨h1, h2⟩
+
+namespace C16Examples
+
+/-- two fraction layers: the first sets `all`, mass and an entry for `g`; the second names the same unit by its NAME and
+    by its symbol, sets the metric table, and gives the kilogram (an SI expansion) an entry of its own -/
+def fracLayer1 : UnitsFile Rat :=
+  { base with fractions := some { all := some (.custom { enabled := none, accuracy := none, maxDen := some 8, maxWhole := some 10 }),
+                                  metric := none, imperial := none,
+                                  quantity := [(.mass, .custom { enabled := some true, accuracy := none, maxDen := none, maxWhole := none })],
+                                  unit := [(['g'], .toggle false)] } }
+def fracLayer2 : UnitsFile Rat :=
+  { defaultSystem := none, si := none, extend := none, quantity := [],
+    fractions := some { all := none, metric := none, imperial := none, quantity := [],
+                        unit := [(['g','r','a','m'], .custom { enabled := none, accuracy := none, maxDen := some 2, maxWhole := none }),
+                                 (['k','g'], .custom { enabled := none, accuracy := none, maxDen := none, maxWhole := some 3 })] } }
+
+def fracOf (r : Except Err (Bld.Converter Rat)) (id : Nat) : Option (Bool × Nat × Nat) :=
+  r.toOption.bind (fun c => (Bld.mapGet c.fractions.unit id).map (fun x => (x.enabled, x.maxDen, x.maxWhole)))
+
+def cfgUsed (r : Except Err (Bld.Converter Rat)) (id : Nat) : Option (Bool × Nat × Nat) :=
+  r.toOption.bind (fun c => (c.units[id]?).map (fun u =>
+    let x := (convOfBuilt c).fractionsConfig (unitOfBuilt id u); (x.enabled, x.maxDen, x.maxWhole)))
+
+-- `C16_fraction_unit_value`: one layer: `g` disabled by its own entry, denominators and whole part inherited from `all`
+example : fracOf (build [fracLayer1]) 0 = some (false, 8, 10) := by decide +kernel
+-- two layers: the LAST entry naming unit 0 (`gram`, layer 2) decides: its own max denominator 2, `enabled` inherited from the
+-- mass table (layer 1's own `false` is gone), whole part from `all`
+example : fracOf (build [fracLayer1, fracLayer2]) 0 = some (true, 2, 10) := by decide +kernel
+-- the kilogram (unit 5, an SI expansion) has its own entry; liter (unit 1) has none
+example : fracOf (build [fracLayer1, fracLayer2]) 5 = some (true, 8, 3) ∧ fracOf (build [fracLayer1, fracLayer2]) 1 = none := by
+  decide +kernel
+-- `C16_fraction_settings_used`: milligram (unit 10) has no entry: the mass table decides ALL fields (not merged with `all`:
+-- max denominator is the default 4, not 8); liter falls through to `all` (enabled = default false, 8, 10)
+example : cfgUsed (build [fracLayer1, fracLayer2]) 10 = some (true, 4, 4294967295) ∧
+    cfgUsed (build [fracLayer1, fracLayer2]) 1 = some (false, 8, 10) ∧
+    cfgUsed (build [fracLayer1, fracLayer2]) 0 = some (true, 2, 10) := by decide +kernel
+-- `C16_quantity_index`: mass = gram and its six expansions, volume = liter
+example : (build [base, spanish]).toOption.map (fun c => (c.quantityIndex .mass, c.quantityIndex .volume))
+    = some ([0, 5, 6, 7, 8, 9, 10], [1]) := by decide +kernel
+-- `C16_final_keys`: the 11 units of [base, spanish] have 30 keys, the index has 30 entries
+example : (build [base, spanish]).toOption.map (fun c => (c.units.map (·.keys.length), c.index.length))
+    = some ([3, 2, 2, 2, 2, 4, 3, 3, 3, 3, 3], 30) := by decide +kernel
+-- … and an extend block cannot smuggle in a blank key or a key the unit already has
+example :
+    let blk (e : ExtendEntry Rat) : UnitsFile Rat :=
+      { defaultSystem := none, si := none, fractions := none, quantity := [], extend := some { precedence := .after, units := [(['l'], e)] } }
+    errOf (build [base, blk { ratio := none, difference := none, names := none, symbols := none, aliases := some [[' ']] }]) = some .emptyUnitKey ∧
+    errOf (build [base, blk { ratio := none, difference := none, names := some [['l']], symbols := none, aliases := none }])
+      = some (.duplicateUnit ['l']) := by decide +kernel
 
 end C16Examples
 
